@@ -43,8 +43,11 @@ type offOp struct {
 	Vol bool   `json:"vol,omitempty"`
 	Ack bool   `json:"ack,omitempty"`
 	Att int    `json:"att,omitempty"`
-	ID  int    `json:"id"`
-	Hs  string `json:"hs,omitempty"`
+	// "" plain; with an ack and a (long, never expiring) time-out through the Emitter chain:
+	// "t" Timeout(d).Emit, "vt" Volatile().Timeout(d).Emit, "tv" Timeout(d).Volatile().Emit
+	Chain string `json:"chain,omitempty"`
+	ID    int    `json:"id"`
+	Hs    string `json:"hs,omitempty"`
 }
 
 type offCase struct {
@@ -251,13 +254,27 @@ func runOffline(ops []offOp) offCase {
 			for a := 0; a < op.Att; a++ {
 				args = append(args, sio.Binary{byte(op.L), byte(a)})
 			}
-			if op.Ack {
-				args = append(args, func() {})
-			}
-			if op.Vol {
-				socket.Volatile().Emit("m", args...)
-			} else {
-				socket.Emit("m", args...)
+			const never = 10 * time.Minute
+			switch {
+			case op.Chain != "":
+				args = append(args, func(err error) {})
+				switch op.Chain {
+				case "vt":
+					socket.Volatile().Timeout(never).Emit("m", args...)
+				case "tv":
+					socket.Timeout(never).Volatile().Emit("m", args...)
+				default:
+					socket.Timeout(never).Emit("m", args...)
+				}
+			default:
+				if op.Ack {
+					args = append(args, func() {})
+				}
+				if op.Vol {
+					socket.Volatile().Emit("m", args...)
+				} else {
+					socket.Emit("m", args...)
+				}
 			}
 			if state == 'C' {
 				ok = flush()
@@ -362,7 +379,14 @@ func genOffline(r *vk.Rand, maxOps int) []offOp {
 		k := r.Intn(10)
 		switch {
 		case k < 4:
-			ops = append(ops, offOp{Op: "emit", L: label, Vol: r.Intn(3) == 0, Ack: r.Intn(3) == 0, Att: []int{0, 0, 0, 1, 2}[r.Intn(5)]})
+			e := offOp{Op: "emit", L: label, Vol: r.Intn(3) == 0, Ack: r.Intn(3) == 0, Att: []int{0, 0, 0, 1, 2}[r.Intn(5)]}
+			if e.Ack && r.Intn(2) == 0 { // ack with a time-out: through the Emitter chain, both orders
+				e.Chain = "t"
+				if e.Vol {
+					e.Chain = []string{"vt", "tv"}[r.Intn(2)]
+				}
+			}
+			ops = append(ops, e)
 			label++
 		case k < 6:
 			switch state {
@@ -438,7 +462,13 @@ func offlineMain(args []string) error {
 	}
 	R := func(l, id int, hs string) offOp { return offOp{Op: "recv", L: l, ID: id, Hs: hs} }
 	O, Y, X := offOp{Op: "open"}, offOp{Op: "reply"}, offOp{Op: "close"}
+	C := func(l int, chain string) offOp {
+		return offOp{Op: "emit", L: l, Vol: chain != "t", Ack: true, Chain: chain}
+	}
 	cases := [][]offOp{
+		// volatile emits with ack + time-out (Emitter chain in both orders): dropped while down and while pending
+		{C(1, "vt"), C(2, "tv"), C(3, "t"), E(4, false, false, 0), O, C(5, "vt"), C(6, "tv"), C(7, "t"), Y, C(8, "vt"), C(9, "tv")},
+		{O, Y, X, C(1, "tv"), C(2, "vt"), E(3, false, false, 1), O, C(4, "vt"), Y},
 		// emits before the first connect, volatile dropped
 		{E(1, false, false, 0), E(2, true, false, 0), E(3, false, true, 1), O, Y, E(4, true, false, 0)},
 		// emits while the CONNECT is pending are parked as well
